@@ -125,6 +125,54 @@ def at_end(world, beh):
     text4 = gin.config_str()
     if text4 != text2:
       return _div('order-independent', text2, text4, order=[list(k) for k, _ in items])
+  return _dynamic_registration_pass(world, items, rng)
+
+
+def _dynamic_registration_pass(world, items, rng):
+  """The same clauses with dynamic registration switched on: the text names configurables through import statements
+  it writes itself (for every module a bound configurable lives in), in a canonical order, and re-parses to itself."""
+  gin, config = world.gin, world.config
+  if not items or any(isinstance(v, config.ConfigurableReference) for _, v in items for v in [v]):
+    pass
+  ENABLE = 'from __gin__ import dynamic_registration\n'
+  texts = []
+  orders = [list(items), list(reversed(items))]
+  extra = list(items)
+  rng.shuffle(extra)
+  orders.append(extra)
+  # one of the modules is imported by the parsed text itself (a recorded import), the others are added by config_str
+  mods = sorted(set(world.originals[sel].__module__ for (_, sel, _), _ in items if sel in world.originals))
+  pre = ENABLE + ('import %s\n' % mods[-1] if len(mods) >= 2 and world.pool_seed % 2 else '')
+  for order in orders:
+    gin.clear_config()
+    try:
+      gin.parse_config(pre)
+      for key, v in order:
+        gin.bind_parameter(key, v)
+      texts.append(gin.config_str())
+    except Exception as e:  # pylint: disable=broad-except
+      return _div('dynamic.returns', 'a string', '%s: %s' % (type(e).__name__, e), order=[list(k) for k, _ in order])
+  STATS['dynamic_texts'] = STATS.get('dynamic_texts', 0) + len(texts)
+  if len(set(texts)) != 1:
+    return _div('dynamic.order-independent', texts[0], [t for t in texts if t != texts[0]][0], order=[list(k) for k, _ in orders[1]])
+  imports = [l.split()[1] for l in texts[0].split('\n') if l.startswith(('import ', 'from ')) and '__gin__' not in l]
+  if imports != sorted(imports):
+    return _div('dynamic.imports-sorted', sorted(imports), imports, text=texts[0])
+  want = {(scope, sel, p): core.jdump(world.to_spec(v)) for (scope, sel, p), v in items if config._is_literally_representable(v)}
+  gin.clear_config()
+  try:
+    gin.parse_config(texts[0])
+  except Exception as e:  # pylint: disable=broad-except
+    return _div('dynamic.roundtrip.parses', 'parses', '%s: %s' % (type(e).__name__, e), text=texts[0])
+  got = {}
+  for (scope, sel), plist in world.project()['cfg'].items():
+    for p, v in plist:
+      got[(scope, sel, p)] = core.jdump(v)
+  if got != want:
+    return _div('dynamic.roundtrip.restores', sorted(map(str, want.items())), sorted(map(str, got.items())), text=texts[0])
+  again = gin.config_str()
+  if again != texts[0] and len(want) == len(items):
+    return _div('dynamic.roundtrip.identical-text', texts[0], again)
   return None
 
 
